@@ -39,7 +39,7 @@ def shards(tier, seed):
         for gi, kinds in enumerate(GROUPS):
             for b in ("J", "B"):
                 out.append({"name": f"{'+'.join(kinds)}-{b}", "build": b,
-                            "params": {"kinds": kinds, "subtypes": subs, "cases": 10 if b == "J" else 5,
+                            "params": {"kinds": kinds, "subtypes": subs, "cases": 16 if b == "J" else 6,
                                        "G": 4, "boxlimit": 500}})
     else:
         for gi, kinds in enumerate(GROUPS):
